@@ -1162,6 +1162,10 @@ static Janet os_execute_impl(int32_t argc, Janet *argv, JanetExecuteMode mode) {
     if (exargs.len < 1) {
         janet_panic("expected at least 1 command line argument");
     }
+    /* Raise argument errors now: once pipes exist, an error would leak their descriptors. */
+    for (int32_t i = 0; i < exargs.len; i++) {
+        (void) janet_getcstring(exargs.items, i);
+    }
 
     /* Optional stdio redirections */
     JanetAbstract orig_in = NULL, orig_out = NULL, orig_err = NULL;
@@ -1170,34 +1174,6 @@ static Janet os_execute_impl(int32_t argc, Janet *argv, JanetExecuteMode mode) {
     int stderr_is_stdout = 0;
     int pipe_errflag = 0; /* Track errors setting up pipes */
     int pipe_owner_flags = (is_spawn && (flags & 0x8)) ? JANET_PROC_ALLOW_ZOMBIE : 0;
-
-    /* Get optional redirections */
-    if (argc > 2 && (mode != JANET_EXECUTE_EXEC)) {
-        JanetDictView tab = janet_getdictionary(argv, 2);
-        Janet maybe_stdin = janet_dictionary_get(tab.kvs, tab.cap, janet_ckeywordv("in"));
-        Janet maybe_stdout = janet_dictionary_get(tab.kvs, tab.cap, janet_ckeywordv("out"));
-        Janet maybe_stderr = janet_dictionary_get(tab.kvs, tab.cap, janet_ckeywordv("err"));
-        if (is_spawn && janet_keyeq(maybe_stdin, "pipe")) {
-            new_in = make_pipes(&pipe_in, 1, &pipe_errflag);
-            pipe_owner_flags |= JANET_PROC_OWNS_STDIN;
-        } else if (!janet_checktype(maybe_stdin, JANET_NIL)) {
-            new_in = janet_getjstream(&maybe_stdin, 0, &orig_in);
-        }
-        if (is_spawn && janet_keyeq(maybe_stdout, "pipe")) {
-            new_out = make_pipes(&pipe_out, 0, &pipe_errflag);
-            pipe_owner_flags |= JANET_PROC_OWNS_STDOUT;
-        } else if (!janet_checktype(maybe_stdout, JANET_NIL)) {
-            new_out = janet_getjstream(&maybe_stdout, 0, &orig_out);
-        }
-        if (is_spawn && janet_keyeq(maybe_stderr, "pipe")) {
-            new_err = make_pipes(&pipe_err, 0, &pipe_errflag);
-            pipe_owner_flags |= JANET_PROC_OWNS_STDERR;
-        } else if (is_spawn && janet_keyeq(maybe_stderr, "out")) {
-            stderr_is_stdout = 1;
-        } else if (!janet_checktype(maybe_stderr, JANET_NIL)) {
-            new_err = janet_getjstream(&maybe_stderr, 0, &orig_err);
-        }
-    }
 
     /* Optional working directory. Available for both os/execute and os/spawn. */
     const char *chdir_path = NULL;
@@ -1211,6 +1187,42 @@ static Janet os_execute_impl(int32_t argc, Janet *argv, JanetExecuteMode mode) {
 #endif
         } else if (!janet_checktype(workdir, JANET_NIL)) {
             janet_panicf("expected string for :cd argumnet, got %v", workdir);
+        }
+    }
+
+    /* Get optional redirections */
+    if (argc > 2 && (mode != JANET_EXECUTE_EXEC)) {
+        JanetDictView tab = janet_getdictionary(argv, 2);
+        Janet maybe_stdin = janet_dictionary_get(tab.kvs, tab.cap, janet_ckeywordv("in"));
+        Janet maybe_stdout = janet_dictionary_get(tab.kvs, tab.cap, janet_ckeywordv("out"));
+        Janet maybe_stderr = janet_dictionary_get(tab.kvs, tab.cap, janet_ckeywordv("err"));
+        int in_is_pipe = is_spawn && janet_keyeq(maybe_stdin, "pipe");
+        int out_is_pipe = is_spawn && janet_keyeq(maybe_stdout, "pipe");
+        int err_is_pipe = is_spawn && janet_keyeq(maybe_stderr, "pipe");
+        /* First the redirections that can raise an error (wrong type, closed stream), then the pipes,
+         * so that no error leaves descriptors of already created pipes behind. */
+        if (!in_is_pipe && !janet_checktype(maybe_stdin, JANET_NIL)) {
+            new_in = janet_getjstream(&maybe_stdin, 0, &orig_in);
+        }
+        if (!out_is_pipe && !janet_checktype(maybe_stdout, JANET_NIL)) {
+            new_out = janet_getjstream(&maybe_stdout, 0, &orig_out);
+        }
+        if (is_spawn && janet_keyeq(maybe_stderr, "out")) {
+            stderr_is_stdout = 1;
+        } else if (!err_is_pipe && !janet_checktype(maybe_stderr, JANET_NIL)) {
+            new_err = janet_getjstream(&maybe_stderr, 0, &orig_err);
+        }
+        if (in_is_pipe) {
+            new_in = make_pipes(&pipe_in, 1, &pipe_errflag);
+            pipe_owner_flags |= JANET_PROC_OWNS_STDIN;
+        }
+        if (out_is_pipe) {
+            new_out = make_pipes(&pipe_out, 0, &pipe_errflag);
+            pipe_owner_flags |= JANET_PROC_OWNS_STDOUT;
+        }
+        if (err_is_pipe) {
+            new_err = make_pipes(&pipe_err, 0, &pipe_errflag);
+            pipe_owner_flags |= JANET_PROC_OWNS_STDERR;
         }
     }
 
@@ -1458,13 +1470,21 @@ static Janet os_execute_impl(int32_t argc, Janet *argv, JanetExecuteMode mode) {
     }
     if (is_spawn) {
         /* Only set up pointers to stdin, stdout, and stderr if os/spawn. */
+        /* A failure below (duplicating the handle of a file) must not leak our ends of pipes that are not wrapped yet. */
         if (new_in != JANET_HANDLE_NONE) {
             proc->in = get_stdio_for_handle(new_in, orig_in, 1);
-            if (NULL == proc->in) janet_panic("failed to construct proc");
+            if (NULL == proc->in) {
+                if (pipe_owner_flags & JANET_PROC_OWNS_STDOUT) close_handle(new_out);
+                if (pipe_owner_flags & JANET_PROC_OWNS_STDERR) close_handle(new_err);
+                janet_panic("failed to construct proc");
+            }
         }
         if (new_out != JANET_HANDLE_NONE) {
             proc->out = get_stdio_for_handle(new_out, orig_out, 0);
-            if (NULL == proc->out) janet_panic("failed to construct proc");
+            if (NULL == proc->out) {
+                if (pipe_owner_flags & JANET_PROC_OWNS_STDERR) close_handle(new_err);
+                janet_panic("failed to construct proc");
+            }
         }
         if (new_err != JANET_HANDLE_NONE) {
             proc->err = get_stdio_for_handle(new_err, orig_err, 0);
